@@ -72,9 +72,24 @@ def to_model(case, obs):
             return "RepairOne %d %d" % (a, b)
         return None
 
+    # the coins of the random link failure (decision log): per link, the outcomes at its enqueues in
+    # order; what follows the last coin that came up is (false, false) = the model's default
+    per_link = {}
+    for (kc, src, dst, rp, rr) in obs.get("coins", []):
+        if isinstance(src, int) and isinstance(dst, int):
+            per_link.setdefault((min(src, dst), max(src, dst)), []).append((rp, rr))
+    for (a, b), cs in sorted(per_link.items()):
+        while cs and cs[-1] == (False, False):
+            cs.pop()
+        if cs:
+            evs.append("Coins %d %d [%s]" % (a, b, "; ".join(
+                "(%s, %s)" % ("true" if rp else "false", "true" if rr else "false") for (rp, rr) in cs)))
+
     for k, st in enumerate(case["steps"]):
         for act in st["ctl"]:
             nm = act[0]
+            if nm in ("set_fail_rate", "set_link_fail_rate"):
+                continue                 # the rates only decide the coins, which are read from the log
             a, b = act[1], act[2]
             if nm == "deliver":
                 evs.append("Mature %d %d [%d]" % (min(a, b), max(a, b), act[3]))
@@ -1039,8 +1054,122 @@ def gen_linkcalls(rng):
     return {"cfg": cfg, "steps": sc.steps, "flavour": "linkcalls-%s" % mode}
 
 
+def gen_randfail(rng):
+    """Random link failure (fail_rate / repair_rate, also switched mid-run) around the handshake, combined
+    with holds and one-way partitions: a SYN is parked by a hold, then one or both directions are made
+    healthy again (repair_oneway / repair; optionally the other one explicitly partitioned), the fail_rate
+    coin comes up at the next enqueue on the link (a second connect, a connect in the other direction, a
+    write on an established stream) and breaks exactly the healthy directions, dropping what is in flight
+    on them; later the link is released."""
+    n = rng.choice([2, 2, 3])
+    sure = rng.random() < 0.7             # rate 1.0 switched on for a window / rates in (0, 1) all the time
+    cfg = base_cfg(rng, n, cap=rng.choice([5, 6, 8]))
+    cfg["fail"] = 0.0 if sure else rng.choice([0.2, 0.4, 0.6])
+    cfg["repair"] = rng.choice([0.0, 0.0, 1.0, 0.5]) if sure else rng.choice([0.0, 0.3, 0.6])
+    sc = Script(cfg)
+    srv = rng.randrange(n)
+    cli = rng.choice([h for h in range(n) if h != srv])
+    sc.cmd(0, srv, ["bind", 1, "unspec", 9000])
+    rev = rng.random() < 0.5
+    if rev:
+        sc.cmd(0, cli, ["bind", 2, "unspec", 9001])
+    conns = []
+    sid = [100]
+    ci = [0]
+
+    def connect(k, h, lh, port):
+        if sum(1 for c in conns if c[2] == lh) >= cfg["cap"] - 1:
+            return None
+        ci[0] += 1
+        sc.cmd(k, h, ["connect", ci[0], {"h": lh}, port])
+        conns.append((ci[0], h, lh))
+        return ci[0]
+
+    def call(k, nm, a, b):
+        if rng.random() < 0.5:
+            sc.ctl(k, [nm, a, b])
+        else:
+            sc.cmd(k, rng.randrange(n), ["link", nm, a, b])
+
+    t = 1
+    early = None
+    if rng.random() < 0.5:
+        early = connect(1, cli, srv, 9000)
+        sc.cmd(2, srv, ["accept", 1, sid[0]])
+        esid = sid[0]
+        sid[0] += 1
+        sc.cmd(3, cli, ["poll", early])
+        t = 4
+    call(t, "hold", cli, srv)
+    t += 1
+    # requests (and data) parked by the hold
+    connect(t, cli, srv, 9000)
+    if rev and rng.random() < 0.6:
+        connect(t, srv, cli, 9001)
+    if early is not None and rng.random() < 0.6:
+        sc.cmd(t, cli, ["try_write", early, nonce(early)])
+        sc.cmd(t, srv, ["try_write", esid, [7, 7, early]])
+    t += 1
+    # make one or both directions healthy again, the parked messages stay
+    shape = rng.choice(["cs", "cs", "cs+cut", "cs+cut", "sc", "sc+cut", "both", "none"])
+    if shape == "cs":
+        call(t, "repair_oneway", cli, srv)
+    elif shape == "cs+cut":
+        call(t, "partition_oneway", srv, cli)
+        t += 1
+        call(t, "repair_oneway", cli, srv)
+    elif shape == "sc":
+        call(t, "repair_oneway", srv, cli)
+    elif shape == "sc+cut":
+        call(t, "partition_oneway", cli, srv)
+        t += 1
+        call(t, "repair_oneway", srv, cli)
+    elif shape == "both":
+        call(t, "repair", cli, srv)
+    t += 2
+    # the window in which the coin comes up
+    if sure:
+        sc.ctl(t, ["set_fail_rate", 1.0] if rng.random() < 0.6 else ["set_link_fail_rate", cli, srv, 1.0])
+    for _ in range(rng.choice([1, 1, 2, 3])):
+        t += 1
+        r = rng.random()
+        if r < 0.5 or early is None:
+            connect(t, cli, srv, 9000)
+        elif r < 0.75:
+            sc.cmd(t, cli, ["try_write", early, [1, 2, 3]])
+        else:
+            sc.cmd(t, srv, ["try_write", esid, [4, 5]])
+        if rev and rng.random() < 0.4:
+            connect(t, srv, cli, 9001)
+    t += 1
+    if sure:
+        sc.ctl(t, ["set_fail_rate", 0.0])
+        sc.ctl(t, ["set_link_fail_rate", cli, srv, 0.0])
+    t += 2
+    call(t, "release", cli, srv)
+    T = t
+    to_srv = sum(1 for c in conns if c[2] == srv)
+    to_cli = sum(1 for c in conns if c[2] == cli)
+    for k in (T + 2, T + 3):
+        for _ in range(to_srv + 1):
+            sc.cmd(k, srv, ["accept", 1, sid[0]])
+            sid[0] += 1
+        if rev:
+            for _ in range(to_cli + 1):
+                sc.cmd(k, cli, ["accept", 2, sid[0]])
+                sid[0] += 1
+    for (c, h, lh) in conns:
+        sc.cmd(T + 4, h, ["poll", c])
+        sc.cmd(T + 5, h, ["poll", c])
+    for h in range(n):
+        sc.cmd(T + 6, h, ["count"])
+    sc.step(T + 7)
+    return {"cfg": cfg, "steps": sc.steps, "flavour": "randfail-%s-%s" % ("sure" if sure else "rate", shape)}
+
+
 def case_signature(case):
-    return json.dumps([case["cfg"]["nhosts"], case["cfg"]["cap"], case["steps"]], sort_keys=True)
+    return json.dumps([case["cfg"]["nhosts"], case["cfg"]["cap"], case["cfg"].get("fail", 0), case["cfg"].get("repair", 0),
+                       case["cfg"]["seed"] if case["cfg"].get("fail") else 0, case["steps"]], sort_keys=True)
 
 
 def histogram(cases):
